@@ -14,7 +14,12 @@
                                             given (arbitrary) dimension names: MatrixRefTensor over it,
                                             Matrix::from(tensor), … (via=); `swapped`: through a
                                             TensorAccess in the order n2,n1                → ok size=RxC
-    (all three leaves take fill=<id|zero|const|parity>: the element stored at offset k is k, 0, 7, k mod 2)
+    @ pmatrix <rows> <cols> <rp> <cp> <kr> <kc>
+                                            the MatrixPart at grid position (kr, kc) of
+                                            Matrix::partition(rp, cp) of a rows×cols matrix holding
+                                            its offsets (parts[kr·(|cp|+1)+kc]) as the source of
+                                            further views                              → ok size=RxC
+    (all leaves take fill=<id|zero|const|parity>: the element stored at offset k is k, 0, 7, k mod 2)
     roundtrip [<n1> <n2>]                   … with TensorRefMatrix::with_names(current, [n1, n2])
     layout                                  data_layout()                       → row_major | column_major | other
     eq <same|cell:k|rows|cols> lhs=<self|rm|cm> rhs=<rm|cm>
@@ -210,6 +215,11 @@ def step (s : State) (toks : List String) : State × String :=
     match rS.toNat?, cS.toNat? with
     | some r, some c => install { fill := (optArg "fill" rest).getD "id" } (.leafCM r c)
     | _, _ => ({}, "bad-op")
+  | "@" :: "pmatrix" :: rS :: cS :: rpS :: cpS :: krS :: kcS :: rest =>
+    match rS.toNat?, cS.toNat?, parseNatList rpS, parseNatList cpS, krS.toNat?, kcS.toNat? with
+    | some r, some c, some rp, some cp, some kr, some kc =>
+      install { fill := (optArg "fill" rest).getD "id" } (.part r c rp cp kr kc)
+    | _, _, _, _, _, _ => ({}, "bad-op")
   | "@" :: "tmatrix" :: shapeS :: rest =>
     -- the names play no role: rows and columns are the first and the second length of the
     -- tensor (in the order it is accessed)
@@ -316,7 +326,11 @@ def step (s : State) (toks : List String) : State × String :=
     -- a write through the view changes exactly the designated cell of the leaf
     match s.expr, s.view, rS.toNat?, cS.toNat? with
     | some e, some v, some r, some c =>
-      (s, both (match e.cell r c with | some i => s!"changed={i}" | none => "none")
+      -- specification: `MExpr.write` on the source data `0..n` with a fresh value, then compare
+      let n := e.dataLen
+      let after := e.write (List.range n) r c n
+      let ch := (List.range n).filter fun k => after.getD k 0 != k
+      (s, both (if ch.isEmpty then "none" else "changed=" ++ ",".intercalate (ch.map toString))
                (match v.view.get r c with
                 | .ok (some i) => s!"changed={i}"
                 | .ok none => "none"
